@@ -666,3 +666,13 @@ benign('C19', 'runs without rows skipped by their shape', 'atomman/lammps/Log.py
 mutant('C14', 'regress-91e0b7b in-plane test on the unnormalised dot product (first search)', 'atomman/defect/free_surface_basis.py', "        if np.isclose(np.dot(cart, unitnormal) / mag, 0.0):", "        if np.isclose(np.dot(cart, planenormal), 0.0):", 'SEARCH')
 mutant('C14', 'regress-91e0b7b in-plane test on the unnormalised dot product (second search)', 'atomman/defect/free_surface_basis.py', "        if np.isclose(np.dot(cart, unitnormal) / np.linalg.norm(cart), 0.0) and", "        if np.isclose(np.dot(cart, planenormal), 0.0) and", 'SEARCH')
 benign('C14', 'in-plane test through the cosine', 'atomman/defect/free_surface_basis.py', "        if np.isclose(np.dot(cart, unitnormal) / mag, 0.0):", "        cosine = np.dot(cart / mag, unitnormal)\n        if np.isclose(cosine, 0.0):")
+
+# regressions of the fix: commit f9a140d (site search by position in a cell with a single atom)
+PTF = 'atomman/defect/point.py'
+_D2 = "np.linalg.norm(np.atleast_2d(system.dvect(pos, system.atoms.pos)), axis=1)"
+_D1 = "np.linalg.norm(system.dvect(pos, system.atoms.pos), axis=1)"
+mutant('C15', 'regress-f9a140d interstitial: distance along axis 1 of a single vector', PTF, (_D2, 1), _D1, 'SITE')
+mutant('C15', 'regress-f9a140d substitutional: distance along axis 1 of a single vector', PTF, (_D2, 2), _D1, 'SITE')
+mutant('C15', 'regress-f9a140d dumbbell: distance along axis 1 of a single vector', PTF, (_D2, 3), _D1, 'SITE')
+benign('C15', 'interstitial: distance through dmag made one-dimensional', PTF, (_D2, 1), "np.atleast_1d(system.dmag(pos, system.atoms.pos))")
+benign('C15', 'dumbbell: single vector reshaped to one row', PTF, (_D2, 3), "np.linalg.norm(np.reshape(system.dvect(pos, system.atoms.pos), (-1, 3)), axis=1)")
